@@ -32,8 +32,18 @@ HISTORY = [
 GRAPH_NAMES = [DEFAULT, I(P[3] + "g"), L("g", None, DTS[2])]
 
 
+def long_statements() -> list:
+    """The same competition for table slots with prefixes, names and datatypes of 128+ characters
+    (keys the encoder may treat differently from short ones)."""
+    w = "w" * 140
+    pl = [f"http://{c}.example/{w}/" for c in "abc"]
+    iris = [I(pl[0] + "n" + w), I(pl[1] + "n" + w), I(pl[2] + "m" + w), I(pl[0] + "m" + w)]
+    lits = [L("x", None, f"http://d.example/{w}/{k}") for k in (1, 2)]
+    return list(itertools.product(iris + lits, repeat=3))
+
+
 def flat_statements() -> list:
-    return list(itertools.product(TERMS, repeat=3)) + mixed_statements()
+    return list(itertools.product(TERMS, repeat=3)) + mixed_statements() + long_statements()
 
 
 def mixed_statements() -> list:
